@@ -300,6 +300,13 @@ pub async fn setup_http_api_handler(
         .layer(DefaultBodyLimit::disable())
         .layer(TraceLayer::new_for_http());
 
+    #[cfg(feature = "verif")]
+    {
+        let mut routers = crate::agent::verif::API_ROUTERS.lock().unwrap();
+        routers.retain(|(a, _)| *a != agent.actor_id());
+        routers.push((agent.actor_id(), api.clone()));
+    }
+
     let mut handles: Vec<JoinHandle<()>> = vec![];
 
     for api_listener in api_listeners {
